@@ -149,6 +149,8 @@ def c03(p, obs):
             if [pr['t'][0] for pr in items['vals'] if isinstance(pr, dict) and 't' in pr] != ks:
                 out.append(('keys_order', {'keys': ks, 'items': items['vals']}))
         for k, got in obs['getkeys']:
+            if len(ks) != len(it['vals']):
+                break               # (already reported as keys_len: positions cannot be compared)
             if k in ks:
                 want = it['vals'][ks.index(k)]
                 if ks.count(k) == 1 and got != {'ok': want}:
